@@ -203,7 +203,7 @@ K_MI_COLS = "pandas-multiindex-columns-with-scalar-schema-keys"
 K_UNHASHABLE = "unique-on-unhashable-cells"
 K_COL_DROP = "pandas-column-level-drop-invalid-rows-none-check-obj"
 K_FRAME_COERCE_FC = "frame-dtype-coercion-failure-cases-reshape"
-K_JOINT_DUPIDX = "joint-unique-failure-cases-duplicate-index-labels"
+K_JOINT_DUPIDX = "joint-unique-failure-cases-duplicate-or-null-index-labels"
 K_MI_SCHEMA = "multiindex-schema-coerce-on-plain-index"
 
 
@@ -239,7 +239,8 @@ def dup_index(d):
     if not ix:
         return False
     rows = list(zip(*[lv["values"] for lv in ix["levels"]]))
-    return len(set(map(repr, rows))) != len(rows)
+    return len(set(map(repr, rows))) != len(rows) or any(
+        v is None for r in rows for v in r)
 
 
 def mi_schema_plain_index(d):
